@@ -165,10 +165,17 @@ pub fn scenarios(tier: Tier) -> Vec<Scenario> {
                     for twice in [false, true] {
                         for with_chan in [false, true] {
                             for race in [false, true] {
-                                if (who == 3 && !with_chan) || (who == 0 && twice) {
+                                if (who == 3 && !with_chan) || (who == 0 && twice) || (np == 2 && k == 2 && with_chan) {
                                     continue;
                                 }
-                                let bound = if np == 2 && k == 2 { 2 } else { 3 };
+                                let bound = match (np, k, with_chan) {
+                                    (1, 1, _) => 3,
+                                    (1, 2, false) | (2, 1, false) => 3,
+                                    (1, 2, true) => 2,
+                                    (2, 1, true) => if !twice && !race { 2 } else { 1 },
+                                    (_, _, false) => 2,
+                                    _ => 1,
+                                };
                                 add(np, k, who, twice, with_chan, race, bound);
                             }
                         }
